@@ -350,6 +350,24 @@ func runDeleteE2E(r *run, g *rng, base string) error {
 			// a source argument that does not exist: the sender's walk reports an error and sets the I/O-error flag
 			spec.Srcs = []string{"", "does-not-exist/"}
 		}
+		// pull: a source directory that cannot be read (served through an fs.FS whose ReadDir fails)
+		if arr == "pull" && !ioErr && withDelete && i%2 == 0 {
+			for _, s := range srcNodes {
+				if s.typ == "d" {
+					spec.FaultyDir = s.path
+					ioErr = true
+					// the unreadable directory's contents are not in the list
+					var kept []tnode
+					for _, x := range srcNodes {
+						if !strings.HasPrefix(x.path, s.path+"/") {
+							kept = append(kept, x)
+						}
+					}
+					srcNodes = kept
+					break
+				}
+			}
+		}
 		res := pool.run(spec)
 		after := listPaths(dest)
 		// a directory in the way of a non-directory (or vice versa) is outside this property's domain
